@@ -11,6 +11,9 @@ focus = ""
 if "--focus" in sys.argv:
     i = sys.argv.index("--focus"); del sys.argv[i]
     focus = """ FOCUS OF THIS ROUND: change 1 must sit OUTSIDE the code that most directly implements the property - in a caller, a helper, a shared utility, a constructor / configuration / reset path, the command line layer, or another package the property's code relies on - so that the property's own code is untouched and still breaks. Change 2 must only manifest on the SECOND or later use of something: state kept between evaluations of the same tree, between calls, loads, resets, restarts, re-registrations, repeated commands, or after an earlier error - the first use must behave exactly as before."""
+if "--feature" in sys.argv:
+    i = sys.argv.index("--feature"); del sys.argv[i]
+    focus = """ FOCUS OF THIS ROUND: each change must read like a commit with a purpose of its own - a small new feature or option, support for a further input form, a fix for a different (real or plausible) shortcoming, a robustness or usability improvement - that is correct for what it sets out to do and breaks THIS property as a side effect in a situation its author did not think of. Not another cache and not another lock change."""
 pid, d = sys.argv[1], sys.argv[2].rstrip("/")
 p = next(json.loads(l) for l in open("/verif/properties.jsonl") if json.loads(l)["id"] == pid)
 a = p["anchors"]
